@@ -433,6 +433,24 @@ def _run(tier, seed, t0, on_accept=None):
                 pos[0] = (K.less if c0.is_less_eq() else K.less_eq)(T)(c0.arg, c0.arg1)
                 try_rule('verit_la_generic', tuple(pos) + ([num(n) for n in co],), [], 'la_generic')
 
+    # two-literal clauses over ONE variable with coefficients > 1 and constants that are not multiples of them
+    # (integer rounding of bounds), every sign / strictness / polarity, small coefficient lists
+    n_la2 = 500 if tier == 'quick' else 8000
+    for it in range(n_la2):
+        T = IntType if rng.random() < 0.8 else RealType
+        num = Int if T == IntType else Real
+        u = Var('u', T)
+        lits_ = []
+        for _ in range(2):
+            kco = rng.choice([1, 1, 2, 3])
+            lhs = u if kco == 1 else K.times(T)(num(kco), u)
+            cst = num(rng.randint(-7, 7))
+            a_, b_ = (lhs, cst) if rng.random() < 0.5 else (cst, lhs)
+            atom = (K.less if rng.random() < 0.5 else K.less_eq)(T)(a_, b_)
+            lits_.append(Not(atom) if rng.random() < 0.5 else atom)
+        co = [num(rng.choice([1, 1, 2, 3])), num(rng.choice([1, 1, 2, 3]))]
+        try_rule('verit_la_generic', tuple(lits_) + (co,), [], 'la_generic-rounding')
+
     seen = {}
     uniq = []
     by = {}
@@ -445,9 +463,9 @@ def _run(tier, seed, t0, on_accept=None):
     return {'name': 'c18_verit',
             'rule': '%d principal formulas x %d rules x premises {none, phi, ~phi} x all clauses of <= %d literals over the '
                     'components of phi (generic near-miss enumeration); %d resolution chains with 7 conclusion variants and '
-                    'perturbed clause sizes; rewrite-style rules on a pool of ~90 left sides x ~40 candidate right sides; %d equality chains / congruences; %d Farkas cycles with 6 variants; oracle z3 '
+                    'perturbed clause sizes; rewrite-style rules on a pool of ~90 left sides x ~40 candidate right sides; %d equality chains / congruences; %d Farkas cycles with 6 variants, %d two-literal clauses over one variable with coefficients 1-3 and constants in [-7,7]; oracle z3 '
                     '(3 s) on an own encoding; non-trivial = distinct accepted (rule, arguments, premises)' % (
-                        n_phi, len(rules), kmax, n_res, n_eq, n_la),
+                        n_phi, len(rules), kmax, n_res, n_eq, n_la, n_la2),
             'evaluations': evals, 'accepted': accepted, 'distinct_nontrivial': len(distinct),
             'accepted_per_rule': dict(sorted(stats.items())), 'rules_never_accepting': [n for n in rules if n not in stats],
             'samples': samples, 'violations': uniq, 'n_violations': len(uniq), 'violations_by_rule': by,
